@@ -35,6 +35,8 @@ def parseOp (tok : String) : Option HOp :=
     else if c = 'F' then (if arg = "" then some .strFree else none)
     else if c = 'V' then (if arg = "c" then some (.send true) else if arg = "n" then some (.send false) else none)
     else if c = 'W' then (if arg = "0" then some (.write true) else if arg = "1" then some (.write false) else none)
+    else if c = 'A' then arg.toNat?.map .obsAdd
+    else if c = 'B' then arg.toNat?.map .obsDel
     else none
 
 def showSend : SendRes → String
@@ -74,6 +76,10 @@ def helpStep (args : List String) : String :=
       " ol=" ++ (if st.ol.isEmpty then "-" else String.intercalate "," (st.ol.map fun o => toString o.num ++ ":" ++ toString o.val.length)) ++
       " str=" ++ toString st.strs.length ++
       " q=" ++ toString st.sess.sendq.length ++ "/" ++ toString st.sess.delayq.length ++ "/" ++ toString st.sess.conActive ++
+      -- session->ref / token lengths of the subscriptions (list order) / the request kept with the first one
+      " obs=" ++ toString st.obs.ref ++ "/" ++
+        (if st.obs.subs.isEmpty then "-" else String.intercalate "," (st.obs.subs.map fun x => toString x.tok.length)) ++
+      " sp=" ++ showPdu (st.obs.subs.head?.map (·.pdu)) ++
       " T " ++ showTrace st.heap.trace ++
       " | ledger=" ++ ledgerVerdict fin.heap.trace ++ (if ledgerOk fin.heap.trace && fin.heap.ok && fin.heap.live.isEmpty then "" else " MONITOR-REJECTS")
     | _, _, _ => "bad-op"
